@@ -1,0 +1,40 @@
+//go:build verif
+
+// Verification hooks for the decoding entry points inside the handshakes (property C13):
+// thin exported wrappers around unexported functions, compiled only with `-tags verif`.
+// Add-only; with the tag off nothing changes.
+package security
+
+import (
+	"context"
+
+	"github.com/bbockelm/cedar/message"
+	"github.com/bbockelm/cedar/stream"
+)
+
+// VerifTLSReceiveMessage runs CEDARTLSConnection.receiveMessage (status, length, data) on s.
+func VerifTLSReceiveMessage(ctx context.Context, s *stream.Stream, isClient bool) ([]byte, error) {
+	c := &CEDARTLSConnection{authenticator: &Authenticator{stream: s}, isClient: isClient}
+	return c.receiveMessage(ctx)
+}
+
+// VerifExchangeKeyClient runs the client side of Authenticator.exchangeKey on s.
+func VerifExchangeKeyClient(ctx context.Context, s *stream.Stream) error {
+	a := &Authenticator{stream: s}
+	return a.exchangeKey(ctx, &SecurityNegotiation{IsClient: true})
+}
+
+// VerifGetIDString exposes getIDString (length-prefixed, size-capped identity string).
+func VerifGetIDString(ctx context.Context, msg *message.Message) (string, error) {
+	return getIDString(ctx, msg)
+}
+
+// VerifGetToken exposes getToken (size-capped token string).
+func VerifGetToken(ctx context.Context, msg *message.Message) (string, error) {
+	return getToken(ctx, msg)
+}
+
+// VerifTokenLimits exposes the size limits the token exchange applies.
+func VerifTokenLimits() (maxName, maxToken, keyLen int) {
+	return AUTH_PW_MAX_NAME_LEN, AUTH_PW_MAX_TOKEN_LEN, AUTH_PW_KEY_LEN
+}
